@@ -53,6 +53,22 @@ class Op:
         self.closure_cfg = {}
 
 
+def _tensor_args(model, call):
+    """arguments of a Tensor(...) construction bound to the parameter names of Tensor.__init__ (positional or keyword)"""
+    init = model.funcs.get('synapgrad.tensor.Tensor.__init__')
+    params = init.pos_params[1:] if init is not None else ['data', 'children', 'operation', 'requires_grad', 'dtype', 'name', 'device']
+    b = {}
+    for i, a in enumerate(call.args):
+        if isinstance(a, ast.Starred) or i >= len(params):
+            return {}
+        b[params[i]] = a
+    for k in call.keywords:
+        if k.arg is None:
+            return {}
+        b[k.arg] = k.value
+    return b
+
+
 def _assignments(fnode, name):
     """all statements in fnode (not nested defs) that bind `name`: [(stmt, value expr or None, kind)]"""
     out = []
@@ -83,8 +99,7 @@ def extract(model: Model, func):
     op.cfg = CFG(fnode)
     # ---- Tensor(..., children=...) constructions
     for n in body_walk(fnode):
-        if isinstance(n, ast.Call) and model.resolve(func.mod, n.func) == 'synapgrad.tensor.Tensor' \
-                and any(k.arg == 'children' for k in n.keywords):
+        if isinstance(n, ast.Call) and model.resolve(func.mod, n.func) == 'synapgrad.tensor.Tensor' and 'children' in _tensor_args(model, n):
             op.tensor_calls.append(n)
     if not op.tensor_calls:
         return None
@@ -107,12 +122,12 @@ def extract(model: Model, func):
         if not (isinstance(v, ast.Call) and dotted(v.func) in ('tuple', 'list') and len(v.args) == 1
                 and isinstance(v.args[0], (ast.GeneratorExp, ast.ListComp)) and v.args[0].elt is tcall):
             raise Incomplete('unrecognised multi-output construction: %s' % norm(out_stmt))
-    kw = {k.arg: k.value for k in tcall.keywords}
+    kw = _tensor_args(model, tcall)
     op.children_expr = kw['children']
     op.rg_raw = kw.get('requires_grad')
     if op.rg_raw is None:
         raise Incomplete('Tensor(children=...) without requires_grad=')
-    op.data_expr = tcall.args[0] if tcall.args else kw.get('data')
+    op.data_expr = kw.get('data')
     # ---- children
     op.children = _children(op, func, op.children_expr)
     # ---- requires_grad expression, through one level of local assignment
@@ -192,6 +207,14 @@ def _children(op, func, expr):
         return out
     if isinstance(expr, ast.Call) and dotted(expr.func) in ('tuple', 'list') and len(expr.args) == 1 and isinstance(expr.args[0], ast.Name):
         return [Child(expr.args[0].id, is_list=True)]
+    if isinstance(expr, ast.IfExp) and all(isinstance(b, ast.Tuple) and all(isinstance(e, ast.Name) for e in b.elts) for b in (expr.body, expr.orelse)):
+        a, b = [e.id for e in expr.body.elts], [e.id for e in expr.orelse.elts]
+        common = [n for n in a if n in b]
+        t = norm(expr.test)
+        out = [Child(n) for n in common]
+        out += [Child(n, cond=t) for n in a if n not in common]
+        out += [Child(n, cond='not (%s)' % t) for n in b if n not in common]
+        return out
     if isinstance(expr, ast.Name):
         asg = _assignments(fnode, expr.id)
         if not asg:
